@@ -49,6 +49,14 @@ def cases(tier):
             for k in (0, 1, 2, 3):
                 if k < 3 or r < 3:
                     add('pow', [(r, r, 2)], k=k)
+    # inner dimensions that are not powers of two with element widths large enough for the row-by-column
+    # sum to need every declared result bit
+    for op in ('matmul', 'dot'):
+        add(op, [(1, 3, 3), (3, 1, 3)])
+        if tier != 'quick':
+            add(op, [(1, 3, 4), (3, 1, 4)])
+            add(op, [(2, 3, 3), (3, 2, 3)])
+            add(op, [(1, 4, 3), (4, 1, 3)])
     # max_bits reached: results reduce modulo 2**max_bits
     add('add', [(2, 2, 3), (2, 2, 3)], max_bits=3, saturates_max_bits=True)
     add('mul', [(2, 2, 3), (2, 2, 3)], max_bits=4, saturates_max_bits=True)
